@@ -1,12 +1,16 @@
 \* design-level demonstration: un-counting skipped for use_host_pointer allocations (code before the repair)
 SPECIFICATION Spec
 CONSTANTS
-  Cell = 128
+  ResSizes = {40, 100, 300}
+  Aligns = {32, 128, 512}
+  ResizeTo = {0, 200, 512, 1024}
+  MaxPoolBytes = 2048
   Sizes = {16}
-  MaxCells = 1
+  MaxLiveRes = 1
   MaxBufs = 2
   MaxPools = 1
   MaxHist = 0
   HostPtrImpl = "leaky"
+  Prefixes <- NoPrefix
 VIEW View
 INVARIANTS Conservation
